@@ -6,7 +6,7 @@ import os
 import re
 
 from .front import AnalysisBroken, REPO
-from .facts import walk
+from .facts import walk, short
 
 
 # ------------------------------------------------------------------ flex pattern parser
@@ -446,6 +446,22 @@ class Lexer:
             if isinstance(st, dict):
                 cur.append(st)
         self.cases = cases
+        # YY_USER_ACTION: the statements every rule's case starts with (whatever the macro expands to - three
+        # assignments, or a call of a helper)
+        texts = None
+        for lb, body in cases.items():
+            if not isinstance(lb, int) or lb < 1 or lb > len([r for r in self.rules if not r.eof]):
+                continue
+            t = {short(s_) for s_ in body if (s_.get("f") or "").endswith("lexer.l") or s_.get("f") is None}
+            texts = t if texts is None else (texts & t)
+        self._ua_texts = {t for t in (texts or set()) if t not in ("<break>", "break", "")}
+        ua_stmts = []
+        for lb, body in cases.items():
+            if isinstance(lb, int) and lb >= 1:
+                ua_stmts = [s_ for s_ in body if short(s_) in self._ua_texts and s_.get("k") != "break"]
+                if ua_stmts:
+                    break
+        self.user_action = inline_helpers({"k": "block", "s": ua_stmts}, facts)
         nrules = len([r for r in self.rules if not r.eof])
         by_num = {r.num: r for r in self.rules if not r.eof}
         for n, r in by_num.items():
@@ -455,6 +471,7 @@ class Lexer:
                     r.line <= s.get("l", 0) <= max(r.endline, r.line)]
             # drop YY_USER_ACTION (expanded at the rule's line): keep statements that are blocks / returns
             ua = [s for s in body if not self._is_user_action(s)]
+            body = [b for b in body if not self._is_user_action(b)] or body
             r.action = {"k": "block", "s": [s for s in ua if s.get("k") != "break"]}
             anyline = [s for s in cases[n] if (s.get("f") or "").endswith("lexer.l")
                        and not self._is_user_action(s) and s.get("k") not in ("break", "null")]
@@ -475,9 +492,10 @@ class Lexer:
             if r.action is not None:
                 r.action = inline_helpers(r.action, facts)
 
-    @staticmethod
-    def _is_user_action(s):
+    def _is_user_action(self, s):
         # yylloc.start = tracker.position; tracker.increment(ch, yyleng); yylloc.end = tracker.position;
+        if short(s) in getattr(self, "_ua_texts", ()) and s.get("k") != "break":
+            return True
         if s.get("k") == "bin" and s.get("op") == "=" and s["lhs"].get("k") == "member" and \
                 s["lhs"].get("name") in ("start", "end") and s["lhs"].get("base", {}).get("name") == "utap_lloc":
             return True
